@@ -30,6 +30,9 @@ type C07Cfg struct {
 	LongTTL   bool   `json:"long_ttl"`       // with Short: the cache TTL stays at 1 h (otherwise 1 s)
 	Domains   string `json:"domains"`        // none | filter (include \.test$ and literals, exclude ^x\.)
 	Insecure  bool   `json:"insecure"`
+	// Upstream: everything leaves through an upstream proxy that speaks TLS itself ("https") or not ("http"): tunnelled
+	// CONNECTs and the transport's own CONNECTs for intercepted requests go through it; origins are verified as before.
+	Upstream string `json:"upstream,omitempty"`
 }
 
 type C07Conn struct {
@@ -74,7 +77,8 @@ func c07Intercepted(host string) bool {
 
 func genC07(t *rapid.T) C07Case {
 	c := C07Case{Cfg: C07Cfg{CacheSize: rapid.SampledFrom([]int{1, 2, 8, 1024}).Draw(t, "cache"), Short: rapid.IntRange(0, 29).Draw(t, "short") == 0,
-		Domains: rapid.SampledFrom([]string{"none", "none", "filter"}).Draw(t, "domains"), Insecure: rapid.IntRange(0, 4).Draw(t, "insecure") == 0}}
+		Domains: rapid.SampledFrom([]string{"none", "none", "filter"}).Draw(t, "domains"), Insecure: rapid.IntRange(0, 4).Draw(t, "insecure") == 0,
+		Upstream: rapid.SampledFrom([]string{"", "", "", "https", "https", "http"}).Draw(t, "upstream")}}
 	n := rapid.SampledFrom([]int{1, 2, 3, 5, 8, 16, 32}).Draw(t, "nconns")
 	hosts := rapid.IntRange(1, 40).Draw(t, "distinct")
 	names := c07Names()
@@ -115,6 +119,7 @@ func genC07(t *rapid.T) C07Case {
 
 type c07Env struct {
 	ca, otherCA *CA
+	up, upTLS   *Peer // upstream proxies (plain, TLS): tunnel every CONNECT to the origins' address
 	origins     map[string]*Peer
 	leaves      map[string][]byte // origin kind -> DER of its leaf
 	mu          sync.Mutex
@@ -148,6 +153,16 @@ func getEnv7() (*c07Env, error) {
 		mk("expired", e.ca.Leaf(all, now.Add(-48*time.Hour), now.Add(-24*time.Hour)))
 		mk("wrongname", e.ca.Leaf([]string{"unrelated.example"}, now.Add(-time.Hour), now.Add(24*time.Hour)))
 		mk("untrusted", e.otherCA.Leaf(all, now.Add(-time.Hour), now.Add(24*time.Hour)))
+		toOrigins := TunnelTo(func(target string) string {
+			_, p, _ := net.SplitHostPort(target)
+			return "127.0.0.3:" + p
+		})
+		if env7Err == nil {
+			e.up, env7Err = StartPeer("c07-upstream", "127.0.0.6", nil, HTTPHandler(scriptedResponder, toOrigins))
+		}
+		if env7Err == nil {
+			e.upTLS, env7Err = StartPeer("c07-upstream-tls", "127.0.0.6", e.ca.ServerTLS("127.0.0.6", "upstream.test"), HTTPHandler(scriptedResponder, toOrigins))
+		}
 		if env7Err == nil {
 			env7 = e
 		}
@@ -173,6 +188,12 @@ func (e *c07Env) proxy(cfg C07Cfg) (*ProxyInst, error) {
 	o := ProxyOpts{CA: e.ca, RootCAs: e.ca.Pool, MITM: true, MITMConfig: mc, Insecure: cfg.Insecure, DialTimeout: 3 * time.Second}
 	if cfg.Domains == "filter" {
 		o.MITMDomains = c07Filter
+	}
+	switch cfg.Upstream {
+	case "https":
+		o.Upstream = "https://" + e.upTLS.Addr
+	case "http":
+		o.Upstream = "http://" + e.up.Addr
 	}
 	for _, p := range e.origins {
 		o.ConnectTo = append(o.ConnectTo, ":"+p.Port+":127.0.0.3:"+p.Port)
@@ -368,7 +389,7 @@ type bufferedConn struct {
 func (b *bufferedConn) Read(p []byte) (int, error) { return b.r.Read(p) }
 
 func classifyC07(c C07Case) (bool, string, []string) {
-	cls := []string{fmt.Sprintf("cache=%d", c.Cfg.CacheSize), "domains-" + c.Cfg.Domains, fmt.Sprintf("conns=%d", len(c.Conns))}
+	cls := []string{fmt.Sprintf("cache=%d", c.Cfg.CacheSize), "domains-" + c.Cfg.Domains, fmt.Sprintf("conns=%d", len(c.Conns)), "upstream-" + c.Cfg.Upstream}
 	hosts := map[string]bool{}
 	nt := false
 	for _, x := range c.Conns {
